@@ -73,7 +73,7 @@ def collect(ctx):
     """returns (sigs, universes, total observations)"""
     q = ctx.quick()
     binp = ctx.go_build("clihist")
-    plans = [(40, 16, "special")] if q else [(200, 24, "id"), (200, 24, "space"), (300, 24, "special"), (200, 24, "dots"), (100, 24, "long")]
+    plans = [(30, 16, "special"), (30, 16, "webby")] if q else [(200, 24, "id"), (200, 24, "space"), (300, 24, "special"), (200, 24, "dots"), (100, 24, "long"), (200, 24, "webby")]
     sigs, universes, total = {}, [], 0
     allfiles = []
     meta = {}
